@@ -129,6 +129,13 @@ def messages():
     for i, txt in enumerate(('C:\\temp\\new', 'EXAMPLE\\jdoe \\\\fileserver\\home', 'group\\1 \\g&lt;0&gt; $1 ${x}', '%s %(x)s {0} {x}', 'a\\')):
         out.append(('forged-backslash-%d' % i, 'SAMLRequest', 'logout_request',
                     forge.request(env.BASE, kind='LogoutRequest').replace('alice', txt)))
+    # Unicode line-boundary characters (valid XML characters) in text and attribute values, with and without an XML
+    # declaration line in front
+    lb = forge.request(env.BASE, kind='LogoutRequest').replace('alice', 'a\u2028b\u2029c\u0085d').replace('ID="Q1"', 'ID="Q1" Consent="x\u2028y"')
+    out.append(('forged-unicode-line-boundaries', 'SAMLRequest', 'logout_request', lb))
+    out.append(('forged-unicode-line-boundaries-with-declaration', 'SAMLRequest', 'logout_request', '<?xml version="1.0" encoding="UTF-8"?>\n' + lb))
+    out.append(('forged-declaration-crlf', 'SAMLRequest', 'logout_request',
+                '<?xml version="1.0"?>\r\n' + forge.request(env.BASE, kind='LogoutRequest').replace('alice', 'x  y\n z')))
     _c['msgs'] = out
     return out
 
@@ -283,6 +290,45 @@ def check_artifact(msg, rs, idx):
     return None
 
 
+def check_raw_form(payload, typ, rs):
+    """The POST form encoder called directly (pack.http_form_post_message / pack.factory) with a parameter name other than
+    SAMLRequest/SAMLResponse: the value is carried as it is and must still be exactly one field value."""
+    from saml2_tophat import pack
+    for how in ('direct', 'factory'):
+        if how == 'direct':
+            info = pack.http_form_post_message(payload, DESTS[0], rs, typ)
+        else:
+            info = pack.factory(BINDING_HTTP_POST, payload, DESTS[0], rs, typ)
+        r = read_form(info['data'])
+        hidden = [i for i in r.inputs if i.get('type') == 'hidden']
+        if [i.get('name') for i in hidden] != [typ] + (['RelayState'] if rs else []):
+            return 'post-fields-created-or-lost:%s' % [i.get('name') for i in hidden]
+        if any(sorted(i) != ['name', 'type', 'value'] for i in hidden):
+            return 'post-markup-injected:attributes'
+        if hidden[0].get('value') != payload:
+            return 'post-value-altered'
+        if rs and hidden[1].get('value') != rs:
+            return 'post-relaystate-altered'
+    return None
+
+
+def check_many_artifacts(n):
+    """n artifacts issued on one entity before any is resolved: every one still resolves to its own message."""
+    _c.pop('sp', None)
+    s = sp()
+    arts = [(s.use_artifact('message-%d' % i, 1), 'message-%d' % i) for i in range(n)]
+    _c.pop('sp', None)
+    if len(set(a for a, _m in arts)) != n:
+        return 'artifact-collision'
+    for i, (a, m) in enumerate(arts):
+        try:
+            if s.artifact[a] != m:
+                return 'artifact-does-not-resolve-to-message:%d-of-%d' % (i, n)
+        except KeyError:
+            return 'artifact-does-not-resolve-to-message:%d-of-%d-gone' % (i, n)
+    return None
+
+
 def guard(name, fn, *a):
     try:
         return (name, fn(*a))
@@ -324,6 +370,10 @@ def evaluate(task):
                     guard('postbody', check_post_body, payload, 'SAMLRequest', '')]
         if kind == 'soapobj':
             return [guard('soap-object-%s' % task[1], check_soap_object, task[1])]
+        if kind == 'rawform':
+            return [guard('post-form-raw-value', check_raw_form, task[1], task[2], task[3])]
+        if kind == 'manyart':
+            return [guard('artifact-store', check_many_artifacts, task[1])]
     except Exception as e:
         import traceback
         return [('exception', 'encoder-or-decoder-raised:%s:%s' % (type(e).__name__, traceback.format_exc()[-300:]))]
@@ -340,6 +390,11 @@ def run(ctx):
     tasks += [('raw', chr(i)) for i in range(1, 256) if i != 13] + [('raw', 'x' * 65536), ('raw', '€' * 300)]
     tasks += [('raw', s) for s in strings(1)]
     tasks += [('soapobj', 'pack'), ('soapobj', 'soap')]
+    ascii_alph = [a for a in ALPH if all(ord(ch) < 128 for ch in a) and a not in ('\r', '\x01', '\x00')]
+    raws = [''.join(t) for k in (1, 2) for t in itertools.product(ascii_alph, repeat=k)] + [f for f in FIXED if all(ord(ch) < 128 for ch in f)] + \
+           ['a&lt;b&amp;c', '&#34;', 'AAAA"x', 'x" autofocus onfocus="alert(1)']
+    tasks += [('rawform', p_, typ_, rs_) for p_ in raws for typ_, rs_ in (('SAMLart', ''), ('SAMLart', 'r"s<'))]
+    tasks += [('manyart', n_) for n_ in (2, 129, 300, 1100)]
     res = ctx.pmap(evaluate, tasks)
     ctx.recheck(evaluate, tasks, res, n=24)
     n_ev = 0
@@ -360,12 +415,16 @@ def run(ctx):
                     key['message_has_newline_in_text'] = '\n' in t[4].split('?>', 1)[-1].strip()
                 elif t[0] == 'raw':
                     key['payload'] = t[1] if len(t[1]) < 20 else 'len-%d' % len(t[1])
+                elif t[0] == 'rawform':
+                    key['payload'], key['parameter'], key['relay_state'] = t[1], t[2], t[3]
+                elif t[0] == 'manyart':
+                    key['count'] = t[1]
                 ctx.violation(key, {'detail': why[:400]})
     return {
         'level': 'exploration',
         'coverage': {
             'evaluations': n_ev, 'distinct_nontrivial': len(nontriv), 'exhaustive': True,
-            'rule': 'all RelayState strings of length <= %d over the %d-symbol hostile alphabet %r + %d fixed injection strings x {Redirect, POST form, POST body, artifact URL} x destinations with/without query; every library-produced message (requests/responses, signed and unsigned, with newlines and markup in text) x {Redirect, POST, POST body, SOAP string path, PAOS, artifact}; single characters U+0001..U+00FF and a 64 kB payload as message; SOAP object paths of pack and soap; independent readers: strict urlencoded reader, html.parser, defusedxml + structural element comparison' % (n, len(ALPH), ALPH, len(FIXED)),
+            'rule': 'all RelayState strings of length <= %d over the %d-symbol hostile alphabet %r + %d fixed injection strings x {Redirect, POST form, POST body, artifact URL} x destinations with/without query; every library-produced message (requests/responses, signed and unsigned, with newlines and markup in text) x {Redirect, POST, POST body, SOAP string path, PAOS, artifact}; single characters U+0001..U+00FF and a 64 kB payload as message; SOAP object paths of pack and soap; the POST form encoder called directly / through pack.factory with another parameter name and every ASCII payload of length <= 2 over the alphabet; 2 / 129 / 300 / 1100 artifacts issued before any is resolved; independent readers: strict urlencoded reader, html.parser, defusedxml + structural element comparison' % (n, len(ALPH), ALPH, len(FIXED)),
             'samples': [{'task': [str(x)[:60] for x in tasks[i]], 'outcomes': res[i]} for i in (0, len(tasks) // 2)],
             'per_encoder': per, 'relay_states': len(rss), 'messages': [m[0] for m in msgs],
         },
@@ -393,4 +452,10 @@ def replay(ctx, w):
     if w['input_kind'] == 'raw' and not w['payload'].startswith('len-'):
         outs = evaluate(('raw', w['payload']))
         return {'violation': any(y for e, y in outs if e == w['encoder'])}
+    if w['input_kind'] == 'rawform':
+        outs = evaluate(('rawform', w['payload'], w['parameter'], w['relay_state']))
+        return {'violation': any(y for _e, y in outs)}
+    if w['input_kind'] == 'manyart':
+        outs = evaluate(('manyart', w['count']))
+        return {'violation': any(y for _e, y in outs)}
     return {'violation': False}
